@@ -85,6 +85,8 @@ def run(ctx):
                 file_readers(ctx, rng, xr, wavespectra, d)
             finally:
                 shutil.rmtree(d, ignore_errors=True)
+        for i, rng in ctx.cases("tracking", ctx.n(48, 1000)):
+            tracking(ctx, rng, xr)
         for i, rng in ctx.cases("writers", ctx.n(160, 4000)):
             d = tempfile.mkdtemp(dir=tmp)
             try:
@@ -300,6 +302,38 @@ def file_readers(ctx, rng, xr, ws, d):
         pure(rec, "file_reader:read_json", "path", lambda: ws.read_json(path), {"path": path})
 
 
+def tracking(ctx, rng, xr):
+    """ptm1_track / track_partitions with calm records (wind exactly zero) in caller-owned numpy arrays."""
+    from wavespectra.partition import tracking as T
+    rec = ctx.rec
+    f = np.linspace(0.04, 0.4, 10)
+    th = np.arange(0, 360, 45.0)
+    nt, ns = int(rng.integers(2, 6)), int(rng.integers(1, 3))
+    lsz = [nt] if ns == 1 else [nt, ns]
+    lnm = ["time"] if ns == 1 else ["time", "site"]
+    A, _ = gen.stack_spectra(rng, f, th, lsz, cls="multimodal")
+    x = gen.make_da(A, f, th, lnm, lsz)
+    co = {n: x[n] for n in lnm}
+    wv = rng.uniform(0, 15, lsz)
+    wv.reshape(-1)[rng.choice(wv.size, size=max(1, wv.size // 3), replace=False)] = 0.0      # calm records
+    buf = wv.copy()
+    w = xr.DataArray(buf, dims=lnm, coords=co)
+    wd = xr.DataArray(rng.uniform(0, 360, lsz), dims=lnm, coords=co)
+    dp = xr.DataArray(np.full(lsz, 40.0), dims=lnm, coords=co)
+    args = {"spectra": x, "wspd": w, "wdir": wd, "dpt": dp, "wspd_buffer": buf}
+    if rng.random() < 0.5:
+        pure(rec, "tracking:ptm1_track", "lead=%d" % len(lnm), lambda: x.spec.partition.ptm1_track(w, wd, dp, swells=2).compute(), args)
+    else:
+        try:
+            parts = x.spec.partition.ptm1(w, wd, dp, swells=2)
+            st = parts.spec.stats(["fp", "dpm"])
+        except Exception as e:
+            rec.skip("tracking:track_partitions", "set-up raised %s" % type(e).__name__)
+            return
+        args.update(stats=st)
+        pure(rec, "tracking:track_partitions", "lead=%d" % len(lnm), lambda: T.track_partitions(st, w).compute(), args)
+
+
 def writers(ctx, rng, xr, ws, d):
     rec = ctx.rec
     from vf.checks.c11 import make_ds
@@ -333,5 +367,20 @@ def writers(ctx, rng, xr, ws, d):
     }
     if fmt == "orcaflex":
         return
+    if rng.random() < 0.25:
+        # writes that fail (no NetCDF-4 backend here, missing directory, unknown format): the caller's dataset, its
+        # attributes and encodings must be what they were
+        nodir = os.path.join(d, "no-such-dir", "out")
+        calls = {
+            "swan": lambda: ds.spec.to_swan(nodir + ".spec"),
+            "swan_grid": lambda: ds.spec.to_swan(nodir + ".spec"),
+            "octopus": lambda: ds.spec.to_octopus(nodir + ".oct", fcut=float(fq[0] + 0.5 * (fq[-1] - fq[0]))),
+            "json": lambda: ds.spec.to_json(nodir + ".json"),
+            "netcdf": lambda: ds.spec.to_netcdf(path + ".nc") if rng.random() < 0.5 else ds.spec.to_netcdf(nodir + ".nc", ncformat="NETCDF3_64BIT", compress=False),
+            "netcdf_grid": lambda: ds.spec.to_netcdf(path + ".nc", ncformat="NETCDF9", compress=False),
+            "ww3": lambda: ds.spec.to_ww3(nodir + "_ww3.nc"),
+            "funwave": lambda: ds.isel(time=0, site=0, drop=True).spec.to_funwave(nodir + ".txt"),
+        }
+        key += "|failing"
     args = {"dataset": ds}
     pure(rec, "writer:" + fmt.replace("_grid", ""), key, calls[fmt], args)
